@@ -44,6 +44,25 @@ mod verif_nx_cursor {
                 return;
             }
         }
+        // the order in which cursors are listed does not matter: track the same cursors in reversed and interleaved order
+        for order in 0..2 {
+            let perm: Vec<u32> = if order == 0 {
+                (0..=max).rev().collect()
+            } else {
+                (0..=max).map(|i| if i % 2 == 0 { i / 2 } else { max - i / 2 }).collect()
+            };
+            let mut cs2: Vec<Cursor> = perm.iter().map(|c| Cursor(*c)).collect();
+            {
+                let mut tracker = recon.process_cursors(&mut cs2, &raw);
+                let mut toks: Vec<Token> = DelphiLexer {}.lex(text).into_iter().map(Token::from).collect();
+                let ft = FormattedTokens::new_from_tokens(&mut toks, &marker);
+                tracker.relocate_cursors(&ft);
+            }
+            for (k, c) in cs2.iter().enumerate() {
+                let orig = perm[k] as usize;
+                assert!(c.0 == cursors[orig].0, "OB cursorrt/order_independent: each cursor is tracked independently of the others and of their order\n text={:?} all_ignored={} cursor={} alone_or_ascending={} in_other_order={}", text, all_ignored, orig, cursors[orig].0, c.0);
+            }
+        }
         // positions inside or at either end of a token's text (the property pins these down); elsewhere only "within the output"
         let mut in_token = vec![false; max as usize + 1];
         let mut pos = 0usize;
